@@ -2,7 +2,7 @@
 import collections
 import json
 import random
-from lib import common, typegen, semref, bdds, irs
+from lib import common, typegen, semref, bdds, irs, cstage
 from lib.vals import *
 
 THEOREMS = ["C07_positive_basic_types_materialise_exactly", "C07_refuted_excluded_literal_sets", "C07_nonvacuous"]
@@ -87,6 +87,98 @@ def expected(sem, spec, v):
             if (not req and v in (NUL, U)) or sem.member(pt, v, False): return True
     return False
 
+# ---------------------------------------------------------------- whole programs: several computed types over recursive operands
+PAYLOADS = ["string", "number", "boolean", '"a" | "b"', "null"]
+SHAPES = [("list", "{ next: %(n)s | null, v: %(p)s }"), ("tree", "{ l: %(n)s | null, r: %(n)s | null, v: %(p)s }"),
+          ("cat", "{ v: %(p)s, sub: %(n)s[] }"), ("opt", "{ next?: %(n)s, v: %(p)s }")]
+EXCLUDED = ["boolean", "string", "number", "null", '"zz"']
+
+
+def recursive_program(r):
+    """2-4 recursive named types of different shape / payload, each behind a computed type that must mean the operand again:
+    Exclude<R | X, X> (X a primitive, disjoint from the object type R) or ({t: R, k: 1} | {t: R, k: 2})["t"]."""
+    k = r.randrange(2, 5)
+    decls, parsers, pairs = [], [], []
+    for i in range(k):
+        shape, tpl = r.choice(SHAPES)
+        n = "R%d" % i
+        decls.append("export type %s = %s;" % (n, tpl % {"n": n, "p": r.choice(PAYLOADS)}))
+        q = r.random()
+        if q < 0.7:
+            x = r.choice(EXCLUDED)
+            decls.append("export type X%d = Exclude<%s | %s, %s>;" % (i, n, x, x))
+        elif q < 0.85:
+            decls.append('export type X%d = ({ t: %s, k: 1 } | { t: %s, k: 2 })["t"];' % (i, n, n))
+        else:
+            decls.append("export type X%d = Exclude<{ root: %s } | number, number>;" % (i, n))
+            decls.append("export type W%d = { root: %s };" % (i, n))
+            pairs.append(("X%d" % i, "W%d" % i)); parsers += ["X%d" % i, "W%d" % i]
+            continue
+        pairs.append(("X%d" % i, n)); parsers += ["X%d" % i, n]
+    src = 'import parse from "./parser";\n' + "\n".join(decls) + "\nexport default parse.buildParsers<{ %s }>();\n" % ", ".join("%s: %s" % (x, x) for x in parsers)
+    return src, pairs
+
+
+def program_stream(run, n, fails, cov):
+    r = random.Random(run.seed + 707)
+    progs = [recursive_program(r) for _ in range(n)]
+    pknown = [k for k in common.load_known("C07") if "program" in json.loads(k["witness"])]
+    for k in pknown:
+        w = json.loads(k["witness"])
+        progs.append((w["program"], [tuple(x) for x in w["pairs"]]))
+    all_fails, fails = fails, []
+    res = cstage.compile_projects([[("entry.ts", src)] for src, _ in progs])
+    dumps = cstage.dump_modules(res)
+    items, meta = [], []
+    outcomes = collections.Counter()
+    for i, ((src, pairs), rr) in enumerate(zip(progs, res)):
+        out = rr.get("outcome")
+        outcomes[out] += 1
+        if out != "code":
+            fails.append(("program-with-several-recursive-computed-types-does-not-compile",
+                          {"program": src, "outcome": out, "panic": rr.get("panic"), "diagnostics": rr.get("diags"), "stderr": rr.get("stderr", "")[-300:]}))
+            continue
+        d = dumps[i]
+        if d is None or "error" in d:
+            fails.append(("emitted-module-does-not-load", {"program": src, "error": (d or {}).get("error")}))
+            continue
+        pv = cstage.values_for_parsers(d, run.seed + i, 14)
+        # the computed type and its operand are judged on the union of their type-directed values
+        for xn, rn in pairs:
+            both = pv.get(xn, []) + pv.get(rn, [])
+            pv[xn] = both; pv[rn] = both
+        items.append((rr["code"], pv, []))
+        meta.append(i)
+    ev = cstage.eval_modules(items)
+    judged = 0
+    for k, i in enumerate(meta):
+        src, pairs = progs[i]
+        e = ev[k]
+        if "error" in e:
+            fails.append(("emitted-module-does-not-load", {"program": src, "error": e["error"]}))
+            continue
+        for xn, rn in pairs:
+            judged += 1
+            va, vb = e[xn]["validate"], e[rn]["validate"]
+            if va != vb:
+                vals = items[k][1][xn]
+                j = next(x for x in range(len(va)) if va[x] != vb[x])
+                fails.append(("computed-type-does-not-mean-its-operand", {"program": src, "computed": xn, "operand": rn,
+                              "value": val_canon(vals[j]), "computed_type_accepts": va[j], "operand_accepts": vb[j]}))
+    for kind, payload in fails:
+        hit = [k for k in pknown if json.loads(k["witness"])["program"] == payload["program"]]
+        if not hit:
+            all_fails.append((kind, payload))
+        for k in hit:
+            if k.get("kind") == "known":
+                run.known("class=%s %s" % (k["class"], k["what"]))
+                cov["known_findings_reproduced"].append(k["class"])
+            else:
+                run.violation("fixed-finding-returned-" + k["class"], dict(payload, clause=kind))
+    cov["spec_checks"]["programs with several computed types over different recursive operands"] = {
+        "programs": n, "outcomes": dict(outcomes), "computed/operand pairs compared on values": judged}
+    cov["samples"].append({"program": progs[0][0]})
+
 
 def check(run):
     ok = run.prove("Props.C07", THEOREMS, ["Props/C07.vo"])
@@ -98,7 +190,7 @@ def check(run):
     n = 420 if quick else 40000
     kinds = ["diff", "diff", "intersect", "union", "keyof", "index", "tuple-any-rest", "diff", "tuple-index"]
     cases = [gen_case(g, r, kinds[i % len(kinds)]) for i in range(n)]
-    known = common.load_known("C07")
+    known = [k for k in common.load_known("C07") if "program" not in json.loads(k["witness"])]
     for kf in known:
         w = json.loads(kf["witness"])
         cases.append((w["named"], w["expr"], tuple(w["spec"])))
@@ -203,6 +295,7 @@ def check(run):
                                                "failures": dict(collections.Counter(k for k, _ in fails)),
                                                "failures inside listed classes": dict(in_known)}
     cov["samples"] = [{"expr": cases[0][1], "named": cases[0][0]}]
+    program_stream(run, 60 if quick else 1500, fails, cov)
     cov["trusted_base"] = [
         "Coq 8.16.1 kernel, vm_compute; no axioms",
         "only the per-tag part of convert_to_schema_no_cache is modelled (Model/Materialise.v); mapping/list clauses, the memo of helper "
